@@ -1,0 +1,26 @@
+//go:build verif
+
+// Package verifhook marks crash points for the verification harness under /verif.
+// With the build tag `verif` a harness can install a callback that is invoked at every point
+// (typically: take a copy of the directory, i.e. the crash image at that point).
+package verifhook
+
+import "sync/atomic"
+
+var callback atomic.Pointer[func(string)]
+
+// Set installs (or with nil removes) the callback. Harness use only.
+func Set(f func(string)) {
+	if f == nil {
+		callback.Store(nil)
+		return
+	}
+	callback.Store(&f)
+}
+
+// Point marks a named crash point.
+func Point(name string) {
+	if f := callback.Load(); f != nil {
+		(*f)(name)
+	}
+}
